@@ -116,7 +116,7 @@ def name_model(mb: ModelBuilder, name: str, in_ctc: bool = True, as_root: bool =
     mb.relation(root, [b], 0, 1)
     twin = name.swapcase() if name.swapcase() != name else name + "X"
     if not as_root and twin not in ("Root", "Plain", "Other", name):
-        mb.relation(root, [mb.feature(twin)], 0, 1)
+        mb.relation(root, [mb.feature(twin)], 1, 1)      # the look-alike is mandatory, the named feature optional
     ctcs = []
     if in_ctc:
         ctcs.append(mb.constraint("c0", mb.node(mb.op("IMPLIES"), mb.node(name), mb.node("Plain"))))
